@@ -53,7 +53,8 @@ func (b *Binder) val(v AV) string {
 
 func (b *Binder) path(p Path) string {
 	var sb strings.Builder
-	if p.Alias {
+	if p.Alias || strings.Contains(p.Attr, ".") {
+		// (a name with a dot in it can only be written through a placeholder)
 		// one alias per distinct attribute
 		name := ""
 		for k, v := range b.Names {
